@@ -4,6 +4,10 @@
 // Comments and pure specification functions only; compiled only with -tags verif.
 package parser
 
+import "strings"
+
+var _ = strings.HasPrefix
+
 // ---------------------------------------------------------------------------------------------
 // C14: map iteration order
 
@@ -170,3 +174,194 @@ func spec_recvOK(i int) bool { panic("spec") }
 //@ loop 3: invariant r != nil && allocated(r) && v.preMap == before(v.preMap) && v.idsymtabl == before(v.idsymtabl)
 //@ loop 3: invariant forall k string :: has(v.idsymtabl, k) ==> v.idsymtabl[k] != nil
 //@ loop 3: invariant [C04] lastPrec(v, ruledef.RightPart, idx3, r.PrecIdSym)
+
+// ---------------------------------------------------------------------------------------------
+// C13: the lexer's scanning loops terminate: every loop either leaves or moves l.end forward, and l.end never
+// passes the end of the input. (Sends are hand-overs under A-seq; the state machine in run() and the
+// unterminated-comment loop, which sends an error token per iteration and blocks once the parser has stopped
+// reading, are not covered by a measure.)
+
+//@ def wfL(l *lexer) = l != nil && 0 <= l.start && l.start <= l.end && l.end <= len(l.input) && 0 <= l.width
+
+//@ func (*lexer).next
+//@ props C13
+//@ results r
+//@ requires wfL(l)
+//@ ensures [C13] wfL(l) && l.start == old(l.start)
+//@ ensures [C13] old(l.end) >= len(l.input) ==> r == eof && l.end == old(l.end) && l.width == 0
+//@ ensures [C13] old(l.end) < len(l.input) ==> r >= 0 && l.width >= 1 && l.end == old(l.end) + l.width
+//@ modifies l.end, l.width, l.prev, l.loc
+
+//@ func (*lexer).backup
+//@ props C13
+//@ requires wfL(l) && l.start <= l.end - l.width
+//@ ensures [C13] wfL(l) && l.end == old(l.end) - old(l.width) && l.width == old(l.width) && l.start == old(l.start)
+//@ modifies l.end, l.loc
+
+//@ func (*lexer).peek
+//@ props C13
+//@ results r
+//@ requires wfL(l)
+//@ ensures [C13] wfL(l) && l.end == old(l.end) && l.start == old(l.start) && ((r == eof) == (l.end >= len(l.input))) && (r != eof ==> r >= 0)
+//@ modifies l.end, l.width, l.prev, l.loc
+
+//@ func (*lexer).ignore
+//@ props C13
+//@ requires wfL(l)
+//@ ensures wfL(l) && l.end == old(l.end) && l.start == l.end
+//@ modifies l.start, l.startLoc
+
+//@ func (*lexer).emitValue
+//@ props C13
+//@ requires wfL(l)
+//@ ensures wfL(l) && l.end == old(l.end) && l.start == l.end
+//@ modifies l.start, l.startLoc
+
+//@ func (*lexer).emit
+//@ props C13
+//@ requires wfL(l)
+//@ ensures wfL(l) && l.end == old(l.end) && l.start == l.end
+//@ modifies l.start, l.startLoc
+
+//@ func (*lexer).emitEOF
+//@ props C13
+//@ requires wfL(l)
+//@ ensures wfL(l) && l.end == old(l.end) && l.start == l.end
+//@ modifies l.start, l.startLoc
+
+//@ func (*lexer).error
+//@ props C13
+//@ requires wfL(l)
+//@ ensures wfL(l) && l.end == old(l.end) && l.start == old(l.start)
+//@ modifies nothing
+
+//@ func (*lexer).acceptRun
+//@ props C13
+//@ requires wfL(l)
+//@ ensures wfL(l) && l.end >= old(l.end) && l.start == old(l.start)
+//@ modifies l.end, l.width, l.prev, l.loc
+//@ loop 0: invariant wfL(l) && l.end >= before(l.end) && l.start == before(l.start)
+//@ loop 0: decreases len(l.input) - l.end
+
+//@ func (*lexer).acceptOnlyAlphaWord
+//@ props C13
+//@ results ok
+//@ requires wfL(l)
+//@ ensures wfL(l) && l.start == old(l.start) && (ok ==> l.end >= old(l.end) + rune_count(word)) && (!ok ==> l.end == old(l.end))
+//@ modifies l.end, l.width, l.prev, l.loc
+//@ loop 0: invariant wfL(l) && l.end >= pos && l.start == before(l.start) && (r != eof ==> l.end < len(l.input))
+//@ loop 0: decreases len(l.input) - l.end
+//@ loop 1: invariant wfL(l) && l.end >= pos + cnt1 && l.start == before(l.start)
+
+//@ func (*lexer).acceptWord
+//@ props C13
+//@ results ok
+//@ requires wfL(l)
+//@ ensures wfL(l) && l.start == old(l.start) && (ok ==> l.end >= old(l.end) + rune_count(word)) && (!ok ==> l.end == old(l.end))
+//@ modifies l.end, l.width, l.prev, l.loc
+//@ loop 0: invariant wfL(l) && l.end >= pos && l.start == before(l.start) && (r != eof ==> l.end < len(l.input))
+//@ loop 0: decreases len(l.input) - l.end
+//@ loop 1: invariant wfL(l) && l.end >= pos + cnt1 && l.start == before(l.start)
+
+// state functions: each scanning loop has the measure "input left" (plus, where the loop reads one rune ahead,
+// a flag that drops when the end-of-input rune has been read). The state machine itself: every step either
+// consumes input or moves to a state of lower rank (CommentState 0 < rootState 1 < the scanning states 2 <
+// DirectiveState 3), so run() makes finitely many steps - provided each state function returns, which the
+// unterminated-comment loop of CommentState does not (it sends an error token per iteration and blocks for
+// ever once the parser has stopped reading).
+//@ def rank(f stateFn) = ite(f == CommentState, 0, ite(f == rootState, 1, ite(f == DirectiveState, 3, 2)))
+//@ def isState(f stateFn) = f == nil || f == rootState || f == CommentState || f == ActionQuoteState || f == charaterState || f == stringKindState ||
+//@     f == IdentifyState || f == ActionState || f == DirectiveState || f == DirectiveOtherState || f == CodeQuoteBegin || f == DirectiveUnionState
+//@ def commentAhead(l *lexer) = strings.HasPrefix(l.input[l.end:], "//") || strings.HasPrefix(l.input[l.end:], "/*")
+//@ def stepOK(l *lexer, self stateFn, next stateFn, oldEnd int) = wfL(l) && l.end >= oldEnd && isState(next) &&
+//@     (next != nil ==> l.end > oldEnd || rank(next) < rank(self)) && (next == CommentState ==> commentAhead(l))
+
+//@ func rootState
+//@ props C13
+//@ results next
+//@ requires wfL(l)
+//@ ensures [C13] stepOK(l, rootState, next, old(l.end))
+
+//@ func CommentState
+//@ props C13
+//@ results next
+//@ requires wfL(l) && commentAhead(l)
+//@ ensures [C13] stepOK(l, CommentState, next, old(l.end)) && next == rootState && l.end > old(l.end)
+//@ loop 0: invariant wfL(l) && l.end >= old(l.end)
+//@ loop 0: decreases len(l.input) - l.end
+//@ loop 1: invariant wfL(l) && l.end >= old(l.end)
+
+//@ func ActionQuoteState
+//@ props C13
+//@ results next
+//@ requires wfL(l)
+//@ ensures [C13] stepOK(l, ActionQuoteState, next, old(l.end))
+//@ loop 0: invariant wfL(l) && l.end >= old(l.end)
+//@ loop 0: decreases len(l.input) - l.end
+
+//@ func stringKindState
+//@ props C13
+//@ results next
+//@ requires wfL(l)
+//@ ensures [C13] stepOK(l, stringKindState, next, old(l.end))
+//@ loop 0: invariant wfL(l) && (r == eof || r >= 0) && l.end >= old(l.end)
+//@ loop 0: decreases (len(l.input) - l.end, ite(r == eof, 0, 1))
+
+//@ func IdentifyState
+//@ props C13
+//@ results next
+//@ requires wfL(l)
+//@ ensures [C13] stepOK(l, IdentifyState, next, old(l.end))
+//@ loop 0: invariant wfL(l) && (r == eof || r >= 0) && l.start <= l.end - l.width && l.end - l.width >= old(l.end)
+//@ loop 0: decreases (len(l.input) - l.end, ite(r == eof, 0, 1))
+
+//@ func CodeQuoteBegin
+//@ props C13
+//@ results next
+//@ requires wfL(l)
+//@ ensures [C13] stepOK(l, CodeQuoteBegin, next, old(l.end))
+//@ loop 0: invariant wfL(l) && vstart <= l.end
+//@ loop 0: decreases len(l.input) - l.end
+//@ loop 1: invariant wfL(l) && vstart <= l.end && l.end >= before(l.end) && (r != eof ==> l.end < len(l.input))
+//@ loop 1: decreases len(l.input) - l.end
+
+//@ func DirectiveUnionState
+//@ props C13
+//@ results next
+//@ requires wfL(l)
+//@ ensures [C13] stepOK(l, DirectiveUnionState, next, old(l.end))
+//@ loop 0: invariant wfL(l) && l.end >= old(l.end)
+//@ loop 0: decreases len(l.input) - l.end
+//@ loop 1: invariant wfL(l) && vstart <= l.end && level >= 1 && l.end >= old(l.end)
+//@ loop 1: decreases len(l.input) - l.end
+
+//@ func charaterState
+//@ props C13
+//@ results next
+//@ requires wfL(l)
+//@ ensures [C13] stepOK(l, charaterState, next, old(l.end))
+
+//@ func ActionState
+//@ props C13
+//@ results next
+//@ requires wfL(l)
+//@ ensures [C13] stepOK(l, ActionState, next, old(l.end))
+
+//@ func DirectiveState
+//@ props C13
+//@ results next
+//@ requires wfL(l) && l.end >= 1
+//@ ensures [C13] stepOK(l, DirectiveState, next, old(l.end))
+
+//@ func DirectiveOtherState
+//@ props C13
+//@ results next
+//@ requires wfL(l)
+//@ ensures [C13] stepOK(l, DirectiveOtherState, next, old(l.end))
+
+// the lexer goroutine: finitely many state transitions (each either consumes input or lowers the rank)
+//@ func (*lexer).run
+//@ props C13
+//@ requires wfL(l)
+//@ loop 0: invariant wfL(l) && isState(state) && (state == CommentState ==> commentAhead(l)) && (state == DirectiveState ==> l.end >= 1)
+//@ loop 0: decreases (len(l.input) - l.end, rank(state))
